@@ -99,48 +99,74 @@ Definition depth_of (r : rawdepth) : depth :=
 
 Definition grav : R := 981 / 100.
 
-(* intrinsic_dispersion_relation: sqrt(g k tanh(k d)) ; tanh(k * inf) = 1 *)
-Definition omega (k : R) (dep : depth) : R :=
+(* intrinsic_dispersion_relation: sqrt(g k tanh(k d)) ; tanh(k * inf) = 1.
+   None = NaN (negative radicand) *)
+Definition osqrt (r : R) : option R := if Rlt_dec r 0 then None else Some (sqrt r).
+Definition omega (k : R) (dep : depth) : option R :=
   match dep with
-  | Deep => sqrt (grav * k)
-  | Depth d => sqrt (grav * k * tanh (k * d))
+  | Deep => osqrt (grav * k)
+  | Depth d => osqrt (grav * k * tanh (k * d))
   end.
 
-(* where(w > sqrt(g/d), w^2/g, w/sqrt(g d)) ; for d = inf: sqrt(g/d) = 0 and w/sqrt(g d) = 0 *)
-Definition first_guess (p : R * depth) : R :=
+(* where(w > sqrt(g/d), w^2/g, w/sqrt(g d)) ; for d = inf: sqrt(g/d) = 0 and w/sqrt(g d) = 0.
+   None = NaN: a non-positive depth gives sqrt of a negative number / a division by zero *)
+Definition first_guess (p : R * depth) : option R :=
   let (w, dep) := p in
   match dep with
-  | Deep => if Rgt_dec w 0 then w * w / grav else 0
-  | Depth d => if Rgt_dec w (sqrt (grav / d)) then w * w / grav else w / sqrt (grav * d)
-  end.
-
-(* derivative of the error with respect to k (the group velocity) *)
-Definition dwdk (w k : R) (dep : depth) : R :=
-  match dep with
-  | Deep => 1 / 2 * w / k
+  | Deep => Some (if Rgt_dec w 0 then w * w / grav else 0)
   | Depth d =>
-      let kd := k * d in
-      if Rgt_dec kd 5 then 1 / 2 * w / k else (1 / 2 + kd / sinh (2 * kd)) * w / k
+      if Rle_dec d 0 then None
+      else Some (if Rgt_dec w (sqrt (grav / d)) then w * w / grav else w / sqrt (grav * d))
   end.
 
-Definition newton1 (p : R * depth) (k : R) : R :=
-  let (w, dep) := p in k - (omega k dep - w) / dwdk w k dep.
+(* derivative of the error with respect to k (the group velocity); None when a divisor vanishes *)
+Definition dwdk (w k : R) (dep : depth) : option R :=
+  if Req_EM_T k 0 then None
+  else match dep with
+       | Deep => Some (1 / 2 * w / k)
+       | Depth d =>
+           let kd := k * d in
+           if Rgt_dec kd 5 then Some (1 / 2 * w / k)
+           else if Req_EM_T (sinh (2 * kd)) 0 then None
+           else Some ((1 / 2 + kd / sinh (2 * kd)) * w / k)
+       end.
 
-(* |error| / w < tolerance ; false for w = 0 (0/0 and x/0 are not < tolerance) *)
-Definition ok1 (tol : R) (p : R * depth) (k : R) : bool :=
+(* one Newton step; a wavenumber is [option R], None = NaN: NaN stays NaN and no division by
+   zero is ever taken *)
+Definition newton1 (p : R * depth) (ok : option R) : option R :=
   let (w, dep) := p in
-  if Req_EM_T w 0 then false
-  else if Rlt_dec (Rabs (omega k dep - w) / w) tol then true else false.
+  match ok with
+  | None => None
+  | Some k =>
+      match omega k dep, dwdk w k dep with
+      | Some om, Some dv => if Req_EM_T dv 0 then None else Some (k - (om - w) / dv)
+      | _, _ => None
+      end
+  end.
 
-Inductive status := Converged (ks : list R) | MaxIter (ks : list R).
+(* |error| / w < tolerance ; false for NaN and for w = 0 (0/0 and x/0 are not < tolerance) *)
+Definition ok1 (tol : R) (p : R * depth) (ok : option R) : bool :=
+  let (w, dep) := p in
+  match ok with
+  | None => false
+  | Some k =>
+      match omega k dep with
+      | None => false
+      | Some om =>
+          if Req_EM_T w 0 then false
+          else if Rlt_dec (Rabs (om - w) / w) tol then true else false
+      end
+  end.
 
-Definition step_all (ps : list (R * depth)) (ks : list R) : list R :=
+Inductive status := Converged (ks : list (option R)) | MaxIter (ks : list (option R)).
+
+Definition step_all (ps : list (R * depth)) (ks : list (option R)) : list (option R) :=
   map (fun pk => newton1 (fst pk) (snd pk)) (combine ps ks).
-Definition ok_all (tol : R) (ps : list (R * depth)) (ks : list R) : bool :=
+Definition ok_all (tol : R) (ps : list (R * depth)) (ks : list (option R)) : bool :=
   forallb (fun pk => ok1 tol (fst pk) (snd pk)) (combine ps ks).
 
 (* the loop: one Newton step for every point, then np.all(relative error < tolerance) *)
-Fixpoint newton (fuel : nat) (tol : R) (ps : list (R * depth)) (ks : list R) : status :=
+Fixpoint newton (fuel : nat) (tol : R) (ps : list (R * depth)) (ks : list (option R)) : status :=
   match fuel with
   | O => MaxIter ks
   | S fu =>
@@ -149,9 +175,10 @@ Fixpoint newton (fuel : nat) (tol : R) (ps : list (R * depth)) (ks : list R) : s
   end.
 
 Definition tolerance : R := 1 / 1000.
-Definition kinv (ps : list (R * depth)) : status := newton 10 tolerance ps (map first_guess ps).
+Definition kinv (ps : list (R * depth)) : status :=
+  newton 10 tolerance ps (map first_guess ps).
 
-Definition status_values (s : status) : list R :=
+Definition status_values (s : status) : list (option R) :=
   match s with Converged ks => ks | MaxIter ks => ks end.
 
 (* ---------- peak_wavenumber: default band, radian frequency at the peak, batch solver ---------- *)
